@@ -197,8 +197,8 @@ def roundtrip_contract(cls, vtype, scope=None, name=None, n_items=None):
         out.append(("deserialize(rt(serialize(v))) == v (value and type)", I.term(oc) == v.t))
         if isinstance(sv, Sym) and vtype in ("datetime", "date"):
             out.append(("serialized form is a JSON string", vm.ty(sv.t) == vm.TAG["str"]))
-        elif isinstance(sv, Sym) and isinstance(vtype, str) and vtype in ("str", "int", "float", "bool"):
-            out.append(("serialized form is JSON-native (the value itself)", sv.t == v.t))
+        elif sv is not None and isinstance(vtype, str) and vtype in ("str", "int", "float", "bool"):
+            out.append(("serialized form is JSON-native (the value itself)", I.term(sv) == v.t))
         return out
     c = FunctionContract("%s:%s.deserialize" % (MOD if cls not in ("Parameter", "String") else "param.parameterized", cls), PROP, setup, post,
                          configure=configure, name=name or "%s.serialize/deserialize[%s]" % (cls, vtype if isinstance(vtype, str) else "%s x%d" % (vtype[1], vtype[2])))
